@@ -271,21 +271,21 @@ static void c07_exec(const Plan &plan, Verdict &v)
 	{
 		size_t d0 = 0, lim = std::min(file.size(), clean_file.size());
 		while (d0 < lim && file[d0] == clean_file[d0]) ++d0;
-		bool damaged = d0 < lim || file.size() != clean_file.size() || info.spoiled_blocks;
+		bool damaged = d0 < lim || file.size() != clean_file.size();
 		if (damaged) {
-			size_t acc = 0, bi = 0, spoil = (size_t)plan.p("art0_spoil_block", 0);
-			for (auto &f : info.fields) {
-				if (f.field != "block_header") continue;
-				// the Block ends where the next field group starts; compare with its header offset only:
-				// a Block whose header starts at or after d0 is not intact, nor is one that contains d0
-				size_t next_start = file.size();
-				for (auto &g : info.fields) if ((g.field == "block_header" || g.field == "index") && g.off > f.off) { next_start = std::min(next_start, g.off); }
-				bool intact = next_start <= d0 && !(spoil && bi + 1 >= spoil);
-				if (!intact) break;
-				acc += bi < info.block_plain_sizes.size() ? info.block_plain_sizes[bi] : 0;
-				++bi;
-			}
-			intact_plain = acc;
+			// what the undamaged part of the file yields (single-threaded decode of the bytes before the
+			// damage), rounded down to a Block boundary: Blocks that lie entirely before the damage
+			Bytes prefix(clean_file.begin(), clean_file.begin() + (long)d0);
+			SimAlloc alp;
+			DecResult pre = decode_st(0, prefix, LZMA_CONCATENATED, UINT64_MAX, false, &alp.a);
+			size_t acc = 0;
+			for (size_t n : info.block_plain_sizes) { if (acc + n > pre.out.size()) break; acc += n; }
+			intact_plain = info.block_plain_sizes.size() == info.n_blocks ? acc : 0;
+		}
+		if (size_t spoil = (size_t)plan.p("art0_spoil_block", 0)) {
+			size_t acc = 0;
+			for (size_t k = 0; k + 1 < spoil && k < info.block_plain_sizes.size(); ++k) acc += info.block_plain_sizes[k];
+			if (info.spoiled_blocks) intact_plain = std::min(intact_plain, acc);
 		}
 	}
 
@@ -341,7 +341,7 @@ static void c07_exec(const Plan &plan, Verdict &v)
 	// the output space - the Block-sized buffer of a worker, the caller's buffer in direct mode, the
 	// never-full buffer of the reference. Recognised only when the status is the same error, one output
 	// is a prefix of the other and both contain everything before the failing Block.
-	if (ref.status != LZMA_STREAM_END && ref.status != LZMA_OK && mt.out.size() != ref.out.size() && info.block_plain_sizes.size() == info.n_blocks) {
+	if (ref.status != LZMA_STREAM_END && ref.status != LZMA_OK && mt.out.size() != ref.out.size()) {
 		const Bytes &a = mt.out.size() < ref.out.size() ? mt.out : ref.out, &b = mt.out.size() < ref.out.size() ? ref.out : mt.out;
 		size_t d = b.size() - a.size();
 		size_t start = std::min(intact_plain, ref.out.size());   // end of the last Block that lies entirely before the damage
